@@ -342,13 +342,13 @@ func fmtC13(hops []c13Hop) string {
 }
 
 type c13Cfg struct {
-	name   string
-	n      int
-	silent int
-	noSack bool
-	ecn    bool // the source host requests ECN: the target's SYN-ACK carries ECE
-	unreach int // router that rejects everything for the destination (IPv4: REJECT rule, IPv6: `unreachable` route; 0 = none): it answers every probe that gets that far with destination-unreachable
-	run    func(l *lab) (got c13Out, problem string)
+	name    string
+	n       int
+	silent  int
+	noSack  bool
+	ecn     bool // the source host requests ECN: the target's SYN-ACK carries ECE
+	unreach int  // router that rejects everything for the destination (IPv4: REJECT rule, IPv6: `unreachable` route; 0 = none): it answers every probe that gets that far with destination-unreachable
+	run     func(l *lab) (got c13Out, problem string)
 }
 
 func checkC13() fw.Check {
